@@ -19,6 +19,19 @@
 //!   FAIL:C18:overhidden…    a responding hop above n is not on the reference screen
 //! Output compared with the model: the privacy value after every op, and at every frame H / N / V
 //! per row of the selected flow, read off a reference screen (table, IP mode, tall enough).
+//!
+//! TEXT of the frames (Tui/Views.v through Tui/Frames.v): after every frame the same state is also drawn on
+//! reference screens 250 columns wide and tall enough for every row (`text_reference`): the hop table as
+//! the application state has it (address mode, AS info, max_addrs, hop details, selection as the keys
+//! left them), the hop table in a pseudo-random cell of address mode x AS off / 6 AS modes x GeoIP mode x
+//! max_addrs x hop details x selected row, and the map.  Read off each: the text of the Host cell of
+//! every row (all its lines) with the row height, resp. title and text of the map's info panel, the number of
+//! pins on the map and whether a selection box is drawn (`#<pins><b|->`); and, first, the "Target: source ->
+//! destination" line of the header.  The
+//! frame op of the case line gets `=<hops>/<target>/<draws>` appended (what the model does not keep:
+//! addresses and counts per hop, the target hop; and which screens were drawn) and the extracted model
+//! must print the same text.  Canonical form: lines joined by `~`, rows by `|`, `^h` = row height,
+//! ' ' written `_`.
 use crate::m_c17::{parse_case, round_of_path, run_case, Case, Hooks, Path};
 use crate::rng::Rng;
 use crate::tuikit::*;
@@ -27,7 +40,7 @@ use std::collections::{BTreeMap, BTreeSet};
 use std::net::{IpAddr, Ipv4Addr};
 use std::sync::atomic::{AtomicUsize, Ordering};
 use trippy_core::FlowId;
-use trippy_dns::{AsInfo, DnsEntry, Resolved};
+use trippy_dns::{AsInfo, DnsEntry, Resolved, Unresolved};
 use trippy_tui::verif_frontend::{AddressMode, AsMode, GeoIpCity, GeoIpMode, TuiApp};
 
 const SRC: IpAddr = IpAddr::V4(Ipv4Addr::new(192, 168, 77, 1));
@@ -89,21 +102,27 @@ fn seed_sentinel(app: &TuiApp, id: u32) {
         return;
     }
     let a = addr(id);
-    app.resolver.verif_seed(
-        a,
-        DnsEntry::Resolved(Resolved::WithAsInfo(
-            a,
-            vec![format!("hq{id}z.example.net")],
-            AsInfo {
-                asn: format!("64{:03}", 500 + id),
-                prefix: format!("PQ{id}Z"),
-                cc: format!("CQ{id}Z"),
-                registry: format!("RQ{id}Z"),
-                allocated: format!("LQ{id}Z"),
-                name: format!("NQ{id}Z"),
-            },
-        )),
-    );
+    let asinfo = AsInfo {
+        asn: format!("64{:03}", 500 + id),
+        prefix: format!("PQ{id}Z"),
+        cc: format!("CQ{id}Z"),
+        registry: format!("RQ{id}Z"),
+        allocated: format!("LQ{id}Z"),
+        name: format!("NQ{id}Z"),
+    };
+    let hosts = vec![format!("hq{id}z.example.net")];
+    // half of the addresses resolve with a host name and full AS info; the others cover every other answer of the resolver the views
+    // distinguish (a Timeout entry is re-queued by the resolver itself and so cannot be kept in place): d_tui.ml `sent_dns` has the same table
+    let entry = match id % 12 {
+        5 => DnsEntry::NotFound(Unresolved::WithAsInfo(a, asinfo)),
+        7 => DnsEntry::Resolved(Resolved::Normal(a, hosts)),
+        8 => DnsEntry::Resolved(Resolved::WithAsInfo(a, hosts, AsInfo::default())),
+        9 => DnsEntry::NotFound(Unresolved::Normal(a)),
+        10 => DnsEntry::Failed(a),
+        11 => DnsEntry::Pending(a),
+        _ => DnsEntry::Resolved(Resolved::WithAsInfo(a, hosts, asinfo)),
+    };
+    app.resolver.verif_seed(a, entry);
     // every third address has no GeoIP entry at all and every third one an entry without coordinates: the
     // "no GeoIp data for hop" paths of the map view are then reached with GeoIP configured
     if id % 3 == 1 {
@@ -296,12 +315,232 @@ fn map_box_rule(app: &mut TuiApp, w: u16, h: u16, what: &str, fails: &mut Vec<St
     }
 }
 
+
+// ---------------------------------------------------------------- the text of the reference screens
+
+/// lines trimmed, trailing empty lines dropped, ' ' -> '_', '~' -> '$', joined by '~'
+fn canon(lines: &[String]) -> String {
+    let mut ls: Vec<String> = lines.iter().map(|l| l.trim().replace('~', "$").replace(' ', "_")).collect();
+    while ls.last().is_some_and(String::is_empty) {
+        ls.pop();
+    }
+    ls.join("~")
+}
+
+fn find_sub(hay: &[char], needle: &str) -> Option<usize> {
+    let n: Vec<char> = needle.chars().collect();
+    if n.is_empty() || hay.len() < n.len() { return None; }
+    (0..=hay.len() - n.len()).find(|i| hay[*i..*i + n.len()] == n[..])
+}
+
+/// The Host cell of every row of the hop table, read off a frame drawn with the columns `#`, `Host`, `Loss%`: the columns are
+/// located by the header row, a row starts where the `#` column is not empty.  -> (canonical text, height in screen lines) per row
+fn host_cells(txt: &str) -> Option<Vec<(String, usize)>> {
+    let lines: Vec<Vec<char>> = txt.lines().map(|l| l.chars().collect()).collect();
+    let (hi, x_ttl, x_host, x_next) = lines.iter().enumerate().find_map(|(i, l)| {
+        let x_ttl = find_sub(l, "#")?;
+        let x_host = find_sub(l, "Host")?;
+        let x_next = find_sub(l, "Loss%")?;
+        if l.first() == Some(&'│') && l[1..x_ttl].iter().all(|c| *c == ' ') && x_ttl < x_host && x_host < x_next { Some((i, x_ttl, x_host, x_next)) } else { None }
+    })?;
+    let mut rows: Vec<Vec<String>> = vec![];
+    for l in &lines[hi + 1..] {
+        if l.first() != Some(&'│') || l.len() < x_next { break; }
+        let ttl: String = l[x_ttl..x_host].iter().collect();
+        let host: String = l[x_host..x_next].iter().collect();
+        if !ttl.trim().is_empty() {
+            rows.push(vec![]);
+        }
+        rows.last_mut()?.push(host);
+    }
+    Some(rows.iter().map(|r| (canon(r), r.len())).collect())
+}
+
+/// Title and text of the info panel of the map (the only box with rounded corners whose title starts with "Hop ")
+fn map_panel(txt: &str) -> Option<String> {
+    let lines: Vec<Vec<char>> = txt.lines().map(|l| l.chars().collect()).collect();
+    let (r, x0) = lines.iter().enumerate().skip(4).find_map(|(i, l)| find_sub(l, "╭Hop ").map(|x| (i, x)))?;
+    let x1 = x0 + lines[r][x0..].iter().position(|c| *c == '╮')?;
+    let title: String = lines[r][x0 + 1..x1].iter().collect::<String>().trim_end_matches('─').to_string();
+    let body: String = lines.get(r + 1)?.get(x0 + 1..x1)?.iter().collect();
+    Some(canon(&[title, body]))
+}
+
+fn hop_token(h: &trippy_core::Hop) -> Option<String> {
+    let mut t = format!("{}r{}", h.ttl(), h.total_recv());
+    for (a, c) in h.addrs_with_counts() {
+        t.push_str(&format!("a{}x{c}", id_of(a)?));
+    }
+    Some(t)
+}
+
+/// One reference screen: which fields of the application are overridden (None: as the application state has it).
+#[derive(Clone, Copy)]
+struct TextDraw {
+    map: bool,
+    am: Option<usize>,
+    asm: Option<usize>, // 0 off, 1..6 AS_MODES
+    geo: usize,
+    ma: Option<Option<u8>>,
+    details: Option<bool>,
+    sel: Option<Option<usize>>,
+}
+
+impl TextDraw {
+    fn token(&self) -> String {
+        let o = |x: Option<String>| x.unwrap_or_else(|| "k".to_string());
+        let on = |x: Option<String>| x.unwrap_or_else(|| "n".to_string());
+        format!(
+            "{},a{},i{},g{},m{},d{},s{}",
+            if self.map { 'w' } else { 't' },
+            o(self.am.map(|v| v.to_string())),
+            o(self.asm.map(|v| v.to_string())),
+            self.geo,
+            o(self.ma.map(|v| on(v.map(|n| n.to_string())))),
+            o(self.details.map(|v| u8::from(v).to_string())),
+            o(self.sel.map(|v| on(v.map(|n| n.to_string()))))
+        )
+    }
+    fn apply(&self, app: &mut TuiApp) {
+        app.show_help = false;
+        app.show_settings = false;
+        app.show_chart = false;
+        app.show_map = self.map;
+        if let Some(am) = self.am {
+            app.tui_config.address_mode = [AddressMode::Ip, AddressMode::Host, AddressMode::Both][am];
+        }
+        match self.asm {
+            None => {}
+            Some(0) => app.tui_config.lookup_as_info = false,
+            Some(m) => {
+                app.tui_config.lookup_as_info = true;
+                app.tui_config.as_mode = AS_MODES[m - 1];
+            }
+        }
+        app.tui_config.geoip_mode = GEO_MODES[self.geo];
+        if let Some(ma) = self.ma {
+            app.tui_config.max_addrs = ma;
+        }
+        if let Some(d) = self.details {
+            app.show_hop_details = d;
+        }
+        if let Some(sel) = self.sel {
+            app.table_state.select(sel);
+            app.selected_hop_address = 0;
+        }
+    }
+}
+
+/// splitmix64 step: the reference screens of a frame are a function of the case (number of ops) and the position of the frame in it
+fn mix(mut z: u64) -> u64 {
+    z = z.wrapping_add(0x9E37_79B9_7F4A_7C15);
+    z = (z ^ (z >> 30)).wrapping_mul(0xBF58_476D_1CE4_E5B9);
+    z = (z ^ (z >> 27)).wrapping_mul(0x94D0_49BB_1331_11EB);
+    z ^ (z >> 31)
+}
+
+/// Draw the reference screens of one frame and read the text off them.  -> (suffix of the frame op, text appended to the frame's output)
+fn text_reference(app: &mut TuiApp, n_ops: usize, i: usize) -> Option<(String, String)> {
+    let hops: Vec<trippy_core::Hop> = app.tracer_data().hops_for_flow(app.selected_flow).to_vec();
+    let hop_tokens: Vec<String> = hops.iter().map(hop_token).collect::<Option<Vec<_>>>()?;
+    let target = std::panic::catch_unwind(std::panic::AssertUnwindSafe(|| hop_token(app.tracer_data().target_hop(app.selected_flow)))).ok()??;
+    let has_error = app.tracer_data().error().is_some();
+    let no_data = app.tracer_data().hops().is_empty();
+    let hop_count = hops.len();
+    let n = app.tui_config.privacy_max_ttl.map_or(0, usize::from);
+    let first_ttl = hops.first().map_or(1, |h| usize::from(h.ttl()).max(1));
+    let mut k = mix((n_ops as u64) << 32 | i as u64);
+    let mut digit = |m: u64| {
+        let d = k % m;
+        k = mix(k);
+        d as usize
+    };
+    let row = |d: usize| -> Option<Option<usize>> {
+        if hop_count == 0 { return None; }
+        let r = match d {
+            0 => return None,
+            1 => return Some(None),
+            2 => 0,
+            3 => (n + 1).saturating_sub(first_ttl + 1),
+            4 => (n + 1).saturating_sub(first_ttl),
+            _ => hop_count - 1,
+        };
+        Some(Some(r.min(hop_count - 1)))
+    };
+    let as_is = TextDraw { map: false, am: None, asm: None, geo: 0, ma: None, details: None, sel: None };
+    let details = digit(2) == 1;
+    let cell = TextDraw {
+        map: false,
+        am: Some(digit(3)),
+        asm: Some(digit(7)),
+        geo: digit(4),
+        ma: Some([None, Some(1), Some(3), Some(2)][digit(4)]),
+        details: Some(details),
+        sel: if details { row(2 + digit(4)) } else { row(digit(6)) },
+    };
+    let map = TextDraw { map: true, am: None, asm: None, geo: 0, ma: None, details: None, sel: row(digit(6)) };
+    let saved = save(app);
+    let saved_cols = app.tui_config.tui_columns.clone();
+    let lines: usize = hops.iter().map(|h| h.addr_count().max(1)).sum();
+    let mut outs = vec![];
+    let mut toks = vec![];
+    for d in [as_is, cell, map] {
+        d.apply(app);
+        app.tui_config.tui_columns = trippy_tui::verif_frontend::TuiColumns::try_from("hol").expect("columns").into();
+        *app.table_state.offset_mut() = 0;
+        let out = if has_error {
+            "?".to_string()
+        } else if no_data {
+            "-".to_string()
+        } else if d.map {
+            // the marks of the map are graphics: the pins are counted by their label, the selection box by its colour
+            let marker = ratatui::style::Color::Indexed(201);
+            let saved_colour = app.tui_config.theme.map_selected;
+            app.tui_config.theme.map_selected = marker;
+            let (t, cells) = crate::tuikit::draw_counting(app, 250, 80, marker);
+            app.tui_config.theme.map_selected = saved_colour;
+            format!("{}#{}{}", map_panel(&t).unwrap_or_else(|| "nopanel".to_string()), t.matches('📍').count(), if cells > 0 { 'b' } else { '-' })
+        } else {
+            match host_cells(&draw(app, 250, (lines + 40).min(2000) as u16)) {
+                None => "notable".to_string(),
+                Some(rows) => {
+                    let last = rows.len().saturating_sub(1);
+                    rows.iter().enumerate().map(|(j, (t, h))| if j < last { format!("{t}^{h}") } else { t.clone() }).collect::<Vec<_>>().join("|")
+                }
+            }
+        };
+        app.tui_config.tui_columns = saved_cols.clone();
+        restore(app, &saved);
+        toks.push(d.token());
+        outs.push(out);
+    }
+    // the "Target: source -> destination" line of the header (drawn in every state, also on the error and the splash screen)
+    let header = draw(app, 250, 40);
+    let target_line = header
+        .lines()
+        .find_map(|l| l.find("Target: ").map(|x| l[x..].split("  ").next().unwrap_or("").trim_end_matches('│').to_string()))
+        .unwrap_or_else(|| "notarget".to_string());
+    // whether the source is printed with its host name depends on the state of the resolver cache (the clear_dns_cache key empties it):
+    // what is compared is whether the source is there at all, "<src>", or the placeholder
+    let target_line = match target_line.split_once(" -> ") {
+        Some((l, r)) if l.starts_with("Target: 192.168.77.1") => format!("Target: <src> -> {r}"),
+        _ => target_line,
+    };
+    outs.insert(0, canon(&[target_line]));
+    Some((
+        format!("{}/{}/{}", if hop_tokens.is_empty() { "-".to_string() } else { hop_tokens.join(".") }, target, toks.join("+")),
+        outs.iter().map(|o| format!("!{o}")).collect(),
+    ))
+}
+
 #[derive(Default, Clone)]
 pub struct Stats {
     pub screens_searched: usize,
     pub hidden_addr_checks: usize,
     pub variant_draws: usize,
     pub reference_draws: usize,
+    pub text_draws: usize,
+    pub text_rows: usize,
 }
 
 const VIEWS: usize = 12; // as is, table, chart, map, help, settings 0..6
@@ -386,7 +625,8 @@ fn apply_combo(app: &mut TuiApp, k: usize) -> (String, (u16, u16)) {
     (format!("v{view}s{sel}d{details}a{am}i{asm}g{geo}m{ma}@{}x{}", size.0, size.1), size)
 }
 
-fn hooks(variants_per_frame: usize, stats: std::sync::Arc<std::sync::Mutex<Stats>>) -> Hooks {
+/// `suffixes`: what `run` appends to the frame ops of the case line (op index, text)
+fn hooks(variants_per_frame: usize, stats: std::sync::Arc<std::sync::Mutex<Stats>>, n_ops: usize, suffixes: std::sync::Arc<std::sync::Mutex<Vec<(usize, String)>>>) -> Hooks {
     Hooks {
         setup: Box::new(|c| {
             // every second case looks its GeoIP data up in a real (generated) MaxMind DB through the real reader and cache
@@ -471,14 +711,24 @@ fn hooks(variants_per_frame: usize, stats: std::sync::Arc<std::sync::Mutex<Stats
                     }
                 }
             }
+            // ---- the text of the reference screens (compared with Tui/Views.v)
+            let mut text = String::new();
+            if let Some((suffix, t)) = text_reference(app, n_ops, i) {
+                st.text_draws += 3;
+                st.text_rows += t.matches(['|', '!']).count();
+                suffixes.lock().unwrap().push((i, suffix));
+                text = t;
+            }
             {
                 let mut g = stats.lock().unwrap();
+                g.text_draws += st.text_draws;
+                g.text_rows += st.text_rows;
                 g.screens_searched += st.screens_searched;
                 g.hidden_addr_checks += st.hidden_addr_checks;
                 g.variant_draws += st.variant_draws;
                 g.reference_draws += st.reference_draws;
             }
-            (fails, Some(if cls.is_empty() { "-".to_string() } else { cls }))
+            (fails, Some(format!("{}{text}", if cls.is_empty() { "-" } else { cls.as_str() })))
         }),
         privacy_only: true,
     }
@@ -621,8 +871,23 @@ pub fn run(args: &Args, out: &mut Out) {
     let mut n_cases = 0usize;
     let mut n_frames = 0usize;
     let mut emit = |c: &Case, out: &mut Out| {
-        let o = run_case("c18", c, hooks(variants, stats.clone()));
-        out.case(&o.input, &o.output, &o.oracle);
+        let suffixes = std::sync::Arc::new(std::sync::Mutex::new(vec![]));
+        let o = run_case("c18", c, hooks(variants, stats.clone(), c.ops.len(), suffixes.clone()));
+        // the frame ops of the line get what the text of their reference screens was computed from (ignored when the line is replayed)
+        let mut input = o.input.clone();
+        if let Some((head, ops)) = o.input.split_once(" ops=") {
+            let mut toks: Vec<String> = ops.split(';').map(str::to_string).collect();
+            for (i, sfx) in suffixes.lock().unwrap().iter() {
+                if let Some(t) = toks.get_mut(*i) {
+                    if t.starts_with("F:") && !t.contains('=') {
+                        t.push('=');
+                        t.push_str(sfx);
+                    }
+                }
+            }
+            input = format!("{head} ops={}", toks.join(";"));
+        }
+        out.case(&input, &o.output, &o.oracle);
         n_cases += 1;
         n_frames += o.frames;
     };
@@ -648,6 +913,8 @@ pub fn run(args: &Args, out: &mut Out) {
     out.stat("frames", n_frames);
     out.stat("variant_draws", g.variant_draws);
     out.stat("reference_draws", g.reference_draws);
+    out.stat("text_reference_draws", g.text_draws);
+    out.stat("text_rows_and_panels_compared", g.text_rows);
     out.stat("screens_searched_with_privacy_on", g.screens_searched);
     out.stat("hidden_address_checks", g.hidden_addr_checks);
     out.stat("view_matrix_size", VIEWS * SELS * 2 * 3 * 7 * 4 * 3 * 4);
